@@ -3,8 +3,10 @@
 //! transcripts, evaluates independent oracles, and compares with the Lean model driver.
 
 mod hal;
+mod mmio;
 mod mtrans;
 mod proto;
+mod refdev;
 mod rng;
 mod runner;
 
@@ -78,6 +80,7 @@ fn main() {
                 i += 1;
             }
             let t0 = std::time::Instant::now();
+            // ---- property dispatch: one line per property module ----
             let (cases, rule, exhaustive, extra) = match prop.as_str() {
                 "C06" => c06_layout::run(&ctx),
                 _ => {
@@ -96,7 +99,8 @@ fn main() {
                 infra_errors: vec![],
                 extra,
             };
-            let work = std::path::Path::new("/verif/out");
+            let workbuf = out.as_ref().and_then(|p| p.parent().map(|d| d.to_path_buf())).unwrap_or_else(|| PathBuf::from("/verif/out"));
+            let work = workbuf.as_path();
             match proto::compare_with_model(&driver, &res.cases, work, &format!("{}-{}", prop, std::process::id())) {
                 Ok(d) => res.disagreements = d,
                 Err(e) => res.infra_errors.push(e),
